@@ -64,8 +64,10 @@ def digest(x: Any) -> str:
 EXEC_DEADLINE_S = 20
 
 
-class ExecutionTimeout(BaseException):
-    pass
+class ExecutionTimeout(KeyboardInterrupt):
+    """raised by the wall-clock guard inside whatever is running.  A KeyboardInterrupt subclass:
+    asyncio tasks re-raise it instead of storing it; the timer keeps firing every 2 s until the
+    execution has unwound (library / harness code may catch BaseException and go on looping)."""
 
 
 class _deadline:
@@ -80,7 +82,7 @@ class _deadline:
     def __enter__(self):
         self.old = signal.signal(signal.SIGALRM, self._fire)
         self.remaining = signal.alarm(0)
-        signal.setitimer(signal.ITIMER_REAL, self.seconds)
+        signal.setitimer(signal.ITIMER_REAL, self.seconds, 2.0)
         return self
 
     def __exit__(self, *a):
